@@ -283,8 +283,18 @@ def explicit_branch_lam(prog, run, fi, pf, f, cfg, label, oval, p_freq, p_order,
     def close_calls(c):
         return [x for x in ast.walk(c) if isinstance(x, ast.Call) and astq.callee_name(prog, pf, x) in CLOSE]
     guards = []
+    # `if not close: warn; continue` at the top of the loop body guards everything after it (the model below follows enclosing ifs only)
+    early = []
+    for st_ in getattr(loop_node, "body", []):
+        if isinstance(st_, ast.If) and not st_.orelse and astq._terminates(st_.body) and close_calls(st_.test):
+            t_ = st_.test
+            early.append((t_.operand, True) if isinstance(t_, ast.UnaryOp) and isinstance(t_.op, ast.Not) else (t_, False))
     for ap, acc in items:
         g = [(c, pol) for c, pol in ap["path"] if close_calls(c)]
+        if not g and early:
+            site_ = ap["site"] if ap["site"] is not None else ap["node"]
+            ln_ = getattr(site_, "lineno", None)
+            g = [(c_, p_) for c_, p_ in early if ln_ is None or getattr(c_, "lineno", 0) <= ln_]
         guards.append(g)
     node0 = items[0][0]["site"] if items[0][0]["site"] is not None else items[0][0]["node"]
     if any(not g for g in guards):
@@ -336,7 +346,24 @@ def explicit_branch(prog, run, fi, pf, pm, f, cfg, label, p_freq, p_order, tF, k
         # loop variable(s): `for fj in freq` or `for ii, fj in enumerate(freq)`
         tgt = loop.target
         counter = None
-        if isinstance(tgt, ast.Tuple) and len(tgt.elts) == 2:
+        ordvar = None           # `for fj, oi in zip(<requested frequencies>, <one order per mode>)`: oi is this mode's order
+        itn = loop.iter
+        while isinstance(itn, ast.Call) and astq.src(itn.func).split(".")[-1] in ("tqdm", "list", "tuple") and itn.args:
+            itn = itn.args[0]
+        if isinstance(tgt, ast.Tuple) and len(tgt.elts) == 2 and all(isinstance(e_, ast.Name) for e_ in tgt.elts) and isinstance(itn, ast.Call) \
+                and astq.src(itn.func) == "zip" and len(itn.args) == 2:
+            d_f = astq._depends_on(fi.node, {p_freq}, data_only=True) | {p_freq}
+            d_o = astq._depends_on(fi.node, {p_order}, data_only=True) | {p_order}
+            n0 = {x_.id for x_ in ast.walk(itn.args[0]) if isinstance(x_, ast.Name)}
+            n1 = {x_.id for x_ in ast.walk(itn.args[1]) if isinstance(x_, ast.Name)}
+            if n0 & d_f and n1 & d_o and not (n1 & d_f - d_o):
+                freqvar, ordvar = tgt.elts[0].id, tgt.elts[1].id
+            elif n1 & d_f and n0 & d_o:
+                ordvar, freqvar = tgt.elts[0].id, tgt.elts[1].id
+            else:
+                run.ob("R-same-pole", fi.qual, "loop target", None, "unrecognised loop over pairs", file=f, config=cfg)
+                continue
+        elif isinstance(tgt, ast.Tuple) and len(tgt.elts) == 2 and all(isinstance(e_, ast.Name) for e_ in tgt.elts):
             counter, freqvar = tgt.elts[0].id, tgt.elts[1].id
         elif isinstance(tgt, ast.Name):
             freqvar = tgt.id
@@ -347,7 +374,11 @@ def explicit_branch(prog, run, fi, pf, pm, f, cfg, label, p_freq, p_order, tF, k
         names = {n.id for n in ast.walk(itx) if isinstance(n, ast.Name)}
         run.ob("R-same-pole", fi.qual, "loop runs over the requested frequencies", p_freq in names, f"iterates `{astq.src(loop.iter, 50)}`", astq.src(loop.iter, 50), file=f, node=loop, config=cfg)
         # expected column
-        if label == "int":
+        if ordvar is not None:
+            def col_ok(c):
+                return isinstance(c, ast.Name) and c.id == ordvar
+            colname = f"{ordvar} (this mode's element of the orders made from `{p_order}`)"
+        elif label == "int":
             def col_ok(c):
                 return isinstance(c, ast.Name) and c.id == p_order
             colname = p_order
@@ -397,13 +428,23 @@ def explicit_branch(prog, run, fi, pf, pm, f, cfg, label, p_freq, p_order, tF, k
                     i = astq.enclosing(pm, i, (ast.If,))
                 if main_if is not None:
                     break
+        early_if = None
+        if main_if is None:
+            # `if not close: warn; continue` before the appends, at the top of the loop body
+            for st_ in loop.body:
+                if isinstance(st_, ast.If) and not st_.orelse and astq._terminates(st_.body) and \
+                        any(isinstance(c, ast.Call) and astq.callee_name(prog, pf, c) in ("numpy.isclose", "numpy.allclose", "math.isclose") for c in ast.walk(astq.expr_at(pf, st_, st_.test))) \
+                        and all(getattr(a, "lineno", 10 ** 9) > st_.lineno for a, acc in items):
+                    early_if = main_if = st_
         if main_if is None:
             run.ob("R-guarded-append", fi.qual, "closeness test", False, "appends are not under any closeness test (isclose) - a far-away pole would be returned", "unguarded", file=f, node=loop, config=cfg)
             continue
         t = astq.expr_at(pf, main_if, main_if.test)
         neg = isinstance(t, ast.UnaryOp) and isinstance(t.op, ast.Not)
         want = "orelse" if neg else "body"
-        allok = all(astq.branch_of(pm, a, main_if) == want for a, acc in items)
+        allok = all(astq.branch_of(pm, a, main_if) == want for a, acc in items) if early_if is None else neg
+        if early_if is not None:
+            want = "the code after the early exit"
         run.ob("R-guarded-append", fi.qual, "appends in the success branch of the closeness test", allok,
                f"test `{astq.src(main_if.test, 40)}` ({'negated' if neg else 'direct'}), appends expected in `{want}`", "misplaced", file=f, node=main_if, config=cfg)
         iscl = [c for c in ast.walk(t) if isinstance(c, ast.Call) and astq.callee_name(prog, pf, c) in ("numpy.isclose", "numpy.allclose", "math.isclose")][0]
@@ -672,6 +713,9 @@ def handover(prog, run, only_methods=None):
             stale = ""
             if mname == "mpe":
                 ok = isinstance(x, ast.Name) and x.id == want and want in mpos
+                if not ok and want in mpos:
+                    rt_ = astq.retyped_param(holder if holder is not None else m, x, want)       # the argument after type conversions
+                    ok = True if rt_ else (ok if rt_ is False else None)
                 if not ok and isinstance(x, ast.Attribute) and astq.src(x).startswith("self.run_params."):
                     # the value read back from the run parameters, where this call stored the caller's argument just before
                     st_, v_ = astq.attr_store_status(holder if holder is not None else m, call, astq.src(x))
@@ -688,6 +732,30 @@ def handover(prog, run, only_methods=None):
                         x = v_
                 ok = (want == "rtol" and isinstance(x, ast.Name) and x.id == "rtol") or \
                      (want == "sel_freq" and s.endswith(".result[0]") and "SelFromPlot" in s) or (want == "order" and s.endswith(".result[1]") and "SelFromPlot" in s)
+                if not ok and isinstance(x, ast.Name) and want in ("sel_freq", "order"):
+                    # a local given the dialog's result on every path, possibly re-typed (int(o) for every o, list(..)): every value it is given
+                    fi_h = holder if holder is not None else m
+                    vals_, seen_, work_ = [], set(), [x.id]
+                    while work_:
+                        nm_ = work_.pop()
+                        if nm_ in seen_:
+                            continue
+                        seen_.add(nm_)
+                        for st_, v_ in astq.assignments(fi_h).get(nm_, []):
+                            vv_ = astq.uncoerce(astq.expr_at(fi_h, st_, v_)) if v_ is not None else None
+                            while isinstance(vv_, ast.Call) and astq.src(vv_.func).split(".")[-1] in ("int", "list", "tuple") and len(vv_.args) == 1:
+                                vv_ = astq.uncoerce(vv_.args[0])
+                            if isinstance(vv_, ast.Name) and vv_.id != nm_:
+                                work_.append(vv_.id)
+                            elif isinstance(vv_, ast.Name):
+                                pass
+                            else:
+                                vals_.append(vv_)
+                    idx_ = "0" if want == "sel_freq" else "1"
+                    if vals_ and all(v_ is not None and astq.src(v_, 400).endswith(f".result[{idx_}]") and "SelFromPlot" in astq.src(v_, 400) for v_ in vals_):
+                        ok = True
+                    elif not vals_ or any(v_ is None for v_ in vals_):
+                        ok = None
             run.ob("R-handover", m.qual, f"{p} <- {want}", ok, f"`{astq.src(x, 60)}`" + stale, astq.src(x, 60), file=fh, node=call)
         m_outer, m, f = m, holder, fh
         # stores: self.result.X = <name unpacked at the position where the callee returns X>
